@@ -2,6 +2,7 @@ SPECIFICATION DispSpec
 CONSTANTS
   NP = 1
   MaxCalls = 12
+  NFull = 4
   MaxOps = 100000
   LogOn = TRUE
   U = "gen"
